@@ -830,33 +830,26 @@ ini_task_ht(void)
 	return 0;
 }
 
+static size_t ntask_ht;
+
 static ssize_t
 put_task_slot(echs_toid_t oid)
 {
-/* find slot for OID for putting
- * if collision recommend new size for task_ht */
-	size_t slot = oid & (ztask_ht - 1ULL);
-	const echs_toid_t toid = task_ht[slot].oid;
-
-	if (LIKELY(!toid)) {
-		return slot;
-	} else if (UNLIKELY(toid == oid)) {
-		/* huh? that's very inconsistent */
-		return slot;
-	}
-	/* calc new size */
-	with (size_t nuz = 1ULL << (__builtin_ctzll(toid ^ oid) + 1U)) {
+/* find slot for OID for putting, linear probing,
+ * the table is kept at most half full */
+	if (UNLIKELY((ntask_ht + 1U) * 2U > ztask_ht)) {
+		const size_t nuz = ztask_ht * 2U;
 		struct tmap_s *nut = calloc(nuz, sizeof(*task_ht));
 
-		assert(nuz > ztask_ht);
 		if (UNLIKELY(nut == NULL)) {
 			/* ah well */
 			return -1;
 		}
 		for (size_t i = 0U; i < ztask_ht; i++) {
-			/* we can't get any additional collisions */
 			if (task_ht[i].oid) {
-				const size_t si = task_ht[i].oid & (nuz - 1ULL);
+				size_t si = task_ht[i].oid & (nuz - 1ULL);
+
+				for (; nut[si].oid; si = (si + 1U) & (nuz - 1ULL));
 				nut[si] = task_ht[i];
 			}
 		}
@@ -865,22 +858,47 @@ put_task_slot(echs_toid_t oid)
 		task_ht = nut;
 		ztask_ht = nuz;
 		ECHS_NOTI_LOG("resized table of tasks to %zu", ztask_ht);
-		slot = oid & (ztask_ht - 1ULL);
-		assert(!task_ht[slot].oid);
 	}
-	return slot;
+	for (size_t slot = oid & (ztask_ht - 1ULL);;
+	     slot = (slot + 1U) & (ztask_ht - 1ULL)) {
+		if (!task_ht[slot].oid || task_ht[slot].oid == oid) {
+			return slot;
+		}
+	}
+	/* not reached */
 }
 
 static size_t
 get_task_slot(echs_toid_t oid)
 {
 /* find slot for OID for getting */
-	for (size_t i = 16U/*retries*/, slot = oid & (ztask_ht - 1U); i; i--) {
+	for (size_t slot = oid & (ztask_ht - 1ULL); task_ht[slot].oid;
+	     slot = (slot + 1U) & (ztask_ht - 1ULL)) {
 		if (task_ht[slot].oid == oid) {
 			return slot;
 		}
 	}
 	return (size_t)-1ULL;
+}
+
+static void
+del_task_slot(size_t i)
+{
+/* vacate slot I and move up whoever probed past it */
+	const size_t msk = ztask_ht - 1ULL;
+
+	for (size_t j = (i + 1U) & msk; task_ht[j].oid; j = (j + 1U) & msk) {
+		const size_t h = task_ht[j].oid & msk;
+
+		/* J may fill the hole unless its home lies in (I, J] */
+		if (i <= j ? (h <= i || h > j) : (h <= i && h > j)) {
+			task_ht[i] = task_ht[j];
+			i = j;
+		}
+	}
+	task_ht[i] = (struct tmap_s){0U, NULL};
+	ntask_ht--;
+	return;
 }
 
 static _task_t
@@ -961,6 +979,9 @@ make_task(echs_toid_t oid)
 	free_tasks = free_tasks->next;
 	nfree_tasks--;
 
+	if (!task_ht[slot].oid) {
+		ntask_ht++;
+	}
 	task_ht[slot] = (struct tmap_s){oid, res};
 	memset(res, 0, sizeof(*res));
 	return res;
@@ -977,7 +998,7 @@ free_task(_task_t t)
 			ECHS_NOTI_LOG("inconsistent table of tasks");
 			break;
 		}
-		task_ht[i] = (struct tmap_s){0U, NULL};
+		del_task_slot(i);
 	}
 
 	if (LIKELY(t->dflt_cred.wd != NULL)) {
